@@ -38,6 +38,8 @@ type Summary struct {
 	ScanListings     int            `json:"complete_scan_listings_compared"`
 	ErrorPathRepeats int            `json:"error_path_requests_repeated"`
 	BlockSequences   int            `json:"block_sequences"`
+	FailingInBlock   int            `json:"catalogue_of_commands_failing_inside_a_block"`
+	KeywordKeys      int            `json:"requests_on_keys_named_like_keywords"`
 	LargeRequests    int            `json:"large_requests"`
 	Blocks           int            `json:"multi_blocks"`
 	BlocksFailed     int            `json:"multi_blocks_with_a_failing_command"`
@@ -383,6 +385,9 @@ func runC14(seed int64, n int, grams []*hx.CmdGrammar) {
 			okb = false
 		}
 		k := 1 + g.R.Intn(4)
+		if round%10 == 0 {
+			k = 0 // an empty block
+		}
 		for i := 0; i < k && okb; i++ {
 			cg := grams[g.R.Intn(len(grams))]
 			args := g.Vector(cg, 0.2)
@@ -1050,6 +1055,10 @@ func runC13(seed int64, n int, grams []*hx.CmdGrammar) {
 	if len(sum.Failures) == 0 {
 		c13Bytes(grams, one)
 	}
+	// (1c) keys NAMED like the command's own option keywords (a key may be called "match")
+	if len(sum.Failures) == 0 {
+		c13KeywordKeys(g, grams, one)
+	}
 	// (2) random vectors
 	for i := 0; i < n && len(sum.Failures) == 0; i++ {
 		cg := grams[g.R.Intn(len(grams))]
@@ -1149,6 +1158,79 @@ func c13QueuedExpiry(c *hx.Client, srvPath string, hist *[][]string) {
 		}
 	}
 	do("DEL", "kq")
+}
+
+// c13KeywordKeys: every command that has option keywords, on a key of its type that is NAMED like
+// one of those keywords (both letter cases): without options and with each option alone.
+func c13KeywordKeys(g *hx.WireGen, grams []*hx.CmdGrammar, one func(int, []string) bool) {
+	saved := g.Keys
+	defer func() { g.Keys = saved; g.CursorZero = false; g.ResetKeySeq() }()
+	create := map[string]func(k string) [][]string{
+		"string": func(k string) [][]string { return [][]string{{"SET", k, "10"}} },
+		"list":   func(k string) [][]string { return [][]string{{"RPUSH", k, "a"}, {"RPUSH", k, "b"}, {"RPUSH", k, "c"}} },
+		"set":    func(k string) [][]string { return [][]string{{"SADD", k, "p0", "p1", "p2", "a"}} },
+		"hash":   func(k string) [][]string { return [][]string{{"HSET", k, "f1", "1", "f2", "b"}} },
+		"zset":   func(k string) [][]string { return [][]string{{"ZADD", k, "1", "a", "2", "b", "3", "c"}} },
+	}
+	i := 0
+	run := func(args []string) bool { i++; return one(3*i, args) }
+	for _, cg := range grams {
+		if cg.Combs == nil {
+			continue
+		}
+		fam := cg.Parser
+		if k := strings.Index(fam, "."); k >= 0 {
+			fam = fam[:k]
+		}
+		if fam == "key" {
+			fam = "string"
+		}
+		mk, ok := create[fam]
+		kws := cg.Keywords()
+		if !ok || len(kws) == 0 {
+			continue
+		}
+		switch cg.Name {
+		case "flushdb", "flushall", "randomkey", "spop", "srandmember":
+			continue
+		}
+		g.CursorZero = true
+		opts := cg.Options()
+		seen := map[string]bool{}
+		for _, kw := range kws {
+			for _, name := range []string{strings.ToLower(kw), strings.ToUpper(kw)} {
+				if seen[name] {
+					continue
+				}
+				seen[name] = true
+				if !run([]string{"DEL", name}) {
+					return
+				}
+				for _, st := range mk(name) {
+					if !run(st) {
+						return
+					}
+				}
+				g.Keys = []string{name}
+				variants := [][]hx.OptChoice{{}}
+				for _, o := range opts {
+					variants = append(variants, []hx.OptChoice{o})
+				}
+				for _, v := range variants {
+					g.ResetKeySeq(name)
+					args := g.VectorOpts(cg, v)
+					g.ResetKeySeq()
+					sum.KeywordKeys++
+					if !run(args) {
+						return
+					}
+				}
+				if !run([]string{"DEL", name}) {
+					return
+				}
+			}
+		}
+	}
 }
 
 // c13Bytes: see (1b) in runC13.  Only commands the server knows are sent.
@@ -1393,6 +1475,37 @@ func c13Blocks(g *hx.WireGen, grams []*hx.CmdGrammar, c *hx.Client, twin *redka.
 			hx.ApplyThroughCommandLayer(twin, toBytes(args))
 		}
 		return true
+	}
+	// (0) a catalogue of commands that parse and are queued but FAIL WHEN THEY RUN (a value that is
+	// not a number, an index out of range, a missing source, a destination of another type): each
+	// between two marker writes - the block must be aborted and leave nothing behind
+	{
+		for _, f := range []string{"string", "hash", "list", "set", "zset"} {
+			for _, setup := range sweepSetup[f] {
+				if !plain(setup) {
+					return
+				}
+			}
+		}
+		failing := [][]string{
+			{"INCR", "ks2"}, {"INCRBY", "ks2", "5"}, {"DECR", "ks2"}, {"DECRBY", "ks2", "1"}, {"INCRBYFLOAT", "ks2", "1.5"},
+			{"HINCRBY", "kh", "f2", "1"}, {"HINCRBYFLOAT", "kh", "f2", "1.5"}, {"HINCRBY", "kh", "f3", "1"}, {"HINCRBYFLOAT", "kh", "f3", "1.5"},
+			{"INCR", "kh"}, {"INCRBYFLOAT", "kl", "1"}, {"HSET", "ks", "f", "v"}, {"HINCRBY", "ks", "f", "1"}, {"HINCRBYFLOAT", "ke", "f", "1"},
+			{"LPUSH", "ks", "a"}, {"RPUSH", "kh", "a"}, {"SADD", "kl", "a"}, {"ZADD", "ke", "1", "a"}, {"ZINCRBY", "ks", "1", "a"},
+			{"LSET", "kl", "99", "v"}, {"LSET", "kl", "-99", "v"}, {"LSET", "kn", "0", "v"}, {"RENAME", "kn", "ks2"}, {"RENAMENX", "kn", "ks2"},
+			{"SMOVE", "ke", "ks", "a"}, {"RPOPLPUSH", "kl", "ks"}, {"SUNIONSTORE", "ks", "ke"}, {"SINTERSTORE", "kh", "ke", "ke2"}, {"SDIFFSTORE", "kl", "ke"},
+			{"ZUNIONSTORE", "ks", "1", "kz"}, {"ZINTERSTORE", "kh", "2", "kz", "kz2"}, {"SETRANGE", "ks", "0", "x"}, {"APPEND", "ks", "x"},
+			{"GETSET", "kh", "v"}, {"SETNX", "kl", "v"}, {"MSETNX", "ks", "v"}, {"SET", "kh", "v", "XX", "GET"}, {"LINSERT", "ks", "BEFORE", "a", "x"},
+		}
+		for i, f := range failing {
+			if len(sum.Failures) > 0 {
+				return
+			}
+			if !runBlock([][]string{{"SET", "marker1", fmt.Sprint("fa", i)}, f, {"SET", "marker2", fmt.Sprint("fb", i)}}) {
+				return
+			}
+			sum.FailingInBlock++
+		}
 	}
 	// (a) every command of the five data types inside a block between two marker writes: on keys
 	// of its own type, on keys of another type, and with its first key of its own type and the
